@@ -21,6 +21,7 @@ def run(F, tier):
     r = numdate.t1(rep, F)
     numdate.t2(rep, F, ft)
     numdate.strftime_census(rep, F)
+    numdate.t4(rep, F)
     rep.sample({"pivot_in_parse_date_yymmdd": r.get("pivot")})
     accept.u6(rep, F, "date")
     accept.u7(rep, F, "date")
